@@ -13,7 +13,7 @@ pub fn spec() -> PropSpec {
     PropSpec {
         id: "C17",
         level: "exploration",
-        rule: "every 24-bit address is enumerated once through the public constructor Plane::from_downlink and compared with an independently transcribed Annex 10 block table (non-trivial = the reference fully determines the code: inside a block or outside every block; distinct by enumeration); additionally generated addresses (block edges +-1, random) go through the whole reader pipeline as DF11, DF17 and DF4 frames (non-trivial = row exists and reference determined; distinct by (address, format))",
+        rule: "every 24-bit address is enumerated once through the public constructor Plane::from_downlink and compared with an independently transcribed Annex 10 block table (non-trivial = the reference fully determines the code: inside a block or outside every block; distinct by enumeration); additionally generated addresses (block edges +-1, random) go through the whole reader pipeline as DF11, DF17 and DF4 frames (non-trivial = row exists and reference determined; distinct by (address, format)); and short histories (first frame of any of the nine formats, silence shorter / longer than delete_after, 0..25 frames of another aircraft so that the row is live, expired-but-unswept, or swept and re-created, second frame of any format, -U on/off): the code shown at the end must again be the block's",
         assumptions: &[
             "reference table transcribed from memory of Annex 10 Vol III table 9-1; where it disagrees with the code and cannot be checked offline (Malta 4D2400-4D2FFF, Montenegro 516000-5163FF) either answer is accepted and the addresses are counted as excluded",
             "country codes are the ISO 3166 alpha-2 codes of the State names (YU for the block still labelled Yugoslavia), ICAO1/ICAO2 for the two ICAO blocks",
@@ -58,6 +58,36 @@ fn reader_reg(addr: u32, fmt: u32) -> Result<Option<String>, String> {
     run::run_lines(&Opts::quiet(), &t, &[f.hex()]).map_err(|e| format!("reader failed: {:?}", e))?;
     let s = run::snapshot(&t);
     Ok(s.get(&addr).map(|r| r.reg.clone()))
+}
+
+fn frame_of(addr: u32, fmt: u32) -> bits::Frame {
+    match fmt {
+        11 => bits::df11(addr, 5, 0),
+        17 => bits::es(17, 5, addr, bits::me_raw(28, 0x1234)),
+        18 => bits::es(18, 2, addr, bits::me_raw(28, 0x1234)),
+        5 => bits::df5(addr, bits::id13_from_squawk(1, 2, 3, 4, 0), 0),
+        20 => bits::df20(addr, bits::ac13_q1(1200), 0, 0),
+        21 => bits::df21(addr, bits::id13_from_squawk(7, 0, 0, 0, 0), 0, 0),
+        0 => bits::df0(addr, bits::ac13_q1(900), 0),
+        16 => bits::df16(addr, bits::ac13_q1(900), 0),
+        _ => bits::df4(addr, bits::ac13_q1(1000), 0),
+    }
+}
+
+/// the country after a short history: first frame, a silence (possibly longer than delete_after), `between` frames of
+/// another aircraft (12 or more make a sweep happen), then a second frame of the aircraft
+fn history_reg(addr: u32, fmt1: u32, fmt2: u32, silence_s: i64, between: usize, u: bool) -> Result<Option<String>, String> {
+    let opts = Opts { d: 60, u, ..Opts::quiet() };
+    let t = run::new_table();
+    run::run_lines(&opts, &t, &[frame_of(addr, fmt1).hex()]).map_err(|e| format!("reader failed: {:?}", e))?;
+    if silence_s != 0 {
+        run::shift_time(&t, silence_s);
+    }
+    let other = if addr == 0x4840D6 { 0x4840D7 } else { 0x4840D6 };
+    let mut lines: Vec<String> = (0..between).map(|_| bits::df11(other, 5, 0).hex()).collect();
+    lines.push(frame_of(addr, fmt2).hex());
+    run::run_lines(&opts, &t, &lines).map_err(|e| format!("reader failed: {:?}", e))?;
+    Ok(run::snapshot(&t).get(&addr).map(|r| r.reg.clone()))
 }
 
 fn run(c: &mut Ctx) {
@@ -155,6 +185,34 @@ fn run(c: &mut Ctx) {
     });
     if let Some(((addr, fmt), m)) = r {
         c.fail(m, "c17:reader", json!({"kind":"addr","addr":addr,"via":"reader","fmt":fmt}));
+        return;
+    }
+    // the code is a function of the address at every point of a row's life: after updates by other formats, after a
+    // silence shorter or longer than delete_after, before and after the sweep, on both update paths
+    let edges2: Vec<u32> = icao_table::BLOCKS.iter().flat_map(|b| [b.0, b.1]).filter(|a| *a != 0).collect();
+    let n2 = edges2.len();
+    let fmts = || proptest::sample::select(vec![0u32, 4, 5, 11, 16, 17, 18, 20, 21]);
+    let strat = (prop_oneof![2 => (0..n2).prop_map(move |i| edges2[i]), 2 => 1u32..0xFF_FFFF], fmts(), fmts(), proptest::sample::select(vec![0i64, 0, 30, 59, 61, 65, 3600, -5]), proptest::sample::select(vec![0usize, 0, 1, 5, 11, 12, 13, 25]), any::<bool>());
+    let cases = c.tier.pick(2400, 40000);
+    let r = c.proptest(cases, strat, |c, &(addr, f1, f2, sil, between, u), counting| {
+        let reg = history_reg(addr, f1, f2, sil, between, u)?;
+        let Some(reg) = reg else {
+            return Err(format!("no row for address {:06X} after DF{}, {} s of silence, {} frames of another aircraft and DF{} (-U {})", addr, f1, sil, between, f2, u));
+        };
+        let det = judge(addr, &reg).map_err(|m| format!("{} [history: DF{}, {} s of silence, {} frames of another aircraft, DF{}, delete_after 60, -U {}]", m, f1, sil, between, f2, u))?;
+        if counting {
+            c.eval(1);
+            c.class(if sil > 60 { if between >= 12 { "history_expired_and_swept" } else { "history_expired_not_swept" } } else { "history_live_row" });
+            if det {
+                c.nontrivial(&("history", addr, f1, f2, sil, between, u));
+            } else {
+                c.excluded("reference-uncertain address (either answer accepted)");
+            }
+        }
+        Ok(())
+    });
+    if let Some(((addr, f1, f2, sil, between, u), m)) = r {
+        c.fail(m, "c17:history", json!({"kind":"history","addr":addr,"f1":f1,"f2":f2,"silence":sil,"between":between,"u":u}));
     }
 }
 
@@ -162,6 +220,19 @@ fn replay(c: &mut Ctx, case: &Value) {
     let addr = case.get("addr").and_then(|v| v.as_u64()).unwrap_or(0) as u32;
     let via = case.get("via").and_then(|v| v.as_str()).unwrap_or("ctor");
     c.eval(1);
+    if case.get("kind").and_then(|k| k.as_str()) == Some("history") {
+        let g = |k: &str| case[k].as_i64().unwrap_or(0);
+        match history_reg(addr, g("f1") as u32, g("f2") as u32, g("silence"), g("between") as usize, case["u"].as_bool().unwrap_or(false)) {
+            Ok(Some(reg)) => {
+                if let Err(m) = judge(addr, &reg) {
+                    c.fail(m, "c17:history", case.clone());
+                }
+            }
+            Ok(None) => c.fail(format!("no row for address {:06X}", addr), "c17:history", case.clone()),
+            Err(m) => c.fail(m, "c17:history", case.clone()),
+        }
+        return;
+    }
     if case.get("kind").and_then(|k| k.as_str()) == Some("addr_pair") {
         let first = case["first"].as_u64().unwrap_or(0) as u32;
         if let Some(msg) = squitterator::get_message(&bits::df11(0x400000, 5, 0).hex()) {
